@@ -27,6 +27,13 @@ def _run_job(args):
         mod = importlib.import_module(modname)
         import numpy as np
         rng = np.random.default_rng([seed, int(hashlib.sha1((fn + repr(sorted(kwargs.items()))).encode()).hexdigest()[:8], 16)])
+        gs = int(rng.integers(0, 2 ** 31))      # code under test that draws from a global generator (torch.rand in module constructors) is made reproducible per job
+        np.random.seed(gs)
+        try:
+            import torch, random
+            torch.manual_seed(gs); random.seed(gs)
+        except Exception:
+            pass
         res = getattr(mod, fn)(tier=tier, rng=rng, **kwargs)
         for r in res:
             r.setdefault('job', f'{fn}{kwargs}')
@@ -159,13 +166,14 @@ def finish(mod, prop, tier, seed, recs, t0, partial=False):
         checker_cmd=f'./check {prop} --tier {tier}',
         trusted_base=list(getattr(mod, 'TRUSTED_BASE', [])),
         functions_under_contract=fns,
+        functions_checked_bounded_only=sorted({f for r in Bn for f in (r.get('functions') or [])} - set(fns)),
         discharged_by_backend=by_backend, solver_seconds=round(solver_s, 2),
         paths=sum(m.get('paths', 0) for m in metas), crosscheck_inputs=sum(m.get('crosscheck_inputs', 0) for m in metas),
         canaries_refuted=len([r for r in proved if r.get('canary_negated_clause_refuted')]),
         shapes=getattr(mod, 'SHAPES', {}).get(tier),
         stubs=list(getattr(mod, 'STUBS', [])), numpy_models=list(getattr(mod, 'NUMPY_MODELS', [])),
         bounded_evaluations=bev, bounded_distinct_nontrivial=bdn, bounded_rule=getattr(mod, 'BOUNDED_RULE', ''),
-        bounded_checks=[dict(id=r['id'], verdict=r['verdict'], evaluations=r.get('evaluations'), exhaustive=r.get('exhaustive')) for r in Bn][:60],
+        bounded_checks=[dict(id=r['id'], verdict=r['verdict'], evaluations=r.get('evaluations'), exhaustive=r.get('exhaustive'), **({'certificates_on_generic_subspaces': r['certificates_on_generic_subspaces']} if 'certificates_on_generic_subspaces' in r else {})) for r in Bn][:60],
         exhaustive=bool(Bn) and all(r.get('exhaustive') for r in Bn if r['verdict'] == 'pass'),
         samples=samples + [dict(id=r['id'], sample=r.get('sample')) for r in Bn if r.get('sample') is not None][:4],
         explanation=getattr(mod, 'EXPLANATION', ''),
